@@ -127,7 +127,7 @@ class Known:
         self.by_prop = collections.defaultdict(dict)
         self.fixed = []
         p = os.path.join(VERIF, 'known_findings.txt')
-        if os.path.exists(p):
+        if os.path.exists(p) and not os.environ.get('VERIF_IGNORE_KNOWN'):   # VERIF_IGNORE_KNOWN: maintenance only (to regenerate witnesses)
             for ln in open(p):
                 ln = ln.strip()
                 if not ln or ln.startswith('#'):
